@@ -304,10 +304,16 @@ class Engine(HeapMixin, ExprMixin, AccessMixin, CallMixin, StmtMixin, BytesMixin
     # expensive to find, so: refute-or-model the quantifier-free part, then try the full
     # condition under a short budget ('sat' = confirmed, 'unknown' = quantifier-free only).
     qf = [c for c in st.pc if not _has_quant(c)]
-    s = z3.Solver()
-    s.set('timeout', 30000)
-    s.add(*qf)
-    c = s.check()
+    c = z3.unknown
+    for seed in (0, 1, 2, 3):      # 'unknown' here is solver noise (a timeout under load): try again with another seed
+      s = z3.Solver()
+      s.set('timeout', 30000)
+      if seed:
+        s.set('smt.random_seed', seed)
+      s.add(*qf)
+      c = s.check()
+      if c != z3.unknown:
+        break
     if c == z3.unsat:
       raise Unsupported('vacuous: precondition of %s is unsatisfiable' % name)
     res.cover = True if c == z3.sat else None
